@@ -518,7 +518,7 @@ func runC10(c *Ctx) {
 			if !ok || bo.Op != token.GTR {
 				continue
 			}
-			if k, isC := constInt(bo.Y); isC && k == 16 && rejectEdgeFrom(p, b, b.Succs[0],true) {
+			if k, isC := constInt(bo.Y); isC && k == 16 && rejectEdgeFrom(p, b, b.Succs[0], true) {
 				// dominates the make
 				for _, b2 := range parse.Blocks {
 					for _, in := range b2.Instrs {
